@@ -502,6 +502,35 @@ pub fn fam_conc(tier: Tier) -> Vec<Config> {
             }
         }
     }
+    // several delayed retries becoming ready at once next to a long-running scenario:
+    // more ready retries than free slots
+    for nsc in 3..=(if tier == Tier::Quick { 4 } else { 5 }) {
+        for conc in [Some(1usize), Some(2), Some(3)] {
+            for holder_last in [true, false] {
+                let mut cfg = base(String::new());
+                let mut scs: Vec<ScenSpec> = (0..nsc - 1).map(|_| scen(&["retry(1).after(5s)"], &[M])).collect();
+                if holder_last {
+                    scs.push(scen(&[], &[M]));
+                } else {
+                    scs.insert(0, scen(&[], &[M]));
+                }
+                cfg.feats = vec![feat(scs)];
+                cfg.items = vec![Item::Feat(0)];
+                cfg.conc_builder = Some(conc);
+                cfg.plan.gates = GateMode::Steps;
+                cfg.clock_budget = 1;
+                cfg.clock_step = Duration::from_secs(6);
+                let infos = cfg.scen_infos();
+                for i in infos.iter().filter(|i| i.has_tag("retry(1).after(5s)")) {
+                    cfg.plan.outcomes.insert(i.calls[0].key.clone(), vec![Outcome::PanicString, Outcome::Pass]);
+                }
+                cfg.bound = Some(if tier == Tier::Quick { 2 } else { 3 });
+                cfg.max_execs = if tier == Tier::Quick { 4_000 } else { 300_000 };
+                cfg.name = format!("conc/delayed|n{nsc}|c{conc:?}|holder_last{}", u8::from(holder_last));
+                out.push(cfg);
+            }
+        }
+    }
     if tier == Tier::Thorough {
         // default limit 64 observed with 66 trivial scenarios
         let mut cfg = base("conc/default64".into());
